@@ -6,3 +6,4 @@ open Model.C04
 #print axioms single_head
 #print axioms refs_in_past
 #print axioms whole_log_in_past
+#print axioms refs_logarithmic
